@@ -7,9 +7,10 @@
 #   github.com/Tnze/go-mc/yggdrasil/user VerifMojangKey (the embedded services key, read-only use)
 # and, to make the SHA-1 digest an environment answer, replaces bot/login.go and server/auth/auth.go by copies
 # of the CURRENT working-tree files in which exactly one thing is rewritten: `sha1.New()` -> `verifSha1New()`
+# and the one-shot `sha1.Sum(` -> `verifSha1Sum(` (which hashes through verifSha1New)
 # (default `var verifSha1New = sha1.New`, so behaviour is unchanged until the harness installs a seam).
 # The copies are regenerated on every run, so any edit to those files is what gets checked. If a file no
-# longer contains `sha1.New()` the seam is not installed for that package (VerifSeam=false) and the check
+# longer contains `sha1.New()` / `sha1.Sum(` the seam is not installed for that package (VerifSeam=false) and the check
 # falls back to real SHA-1 only, reporting a cap.
 #
 # VERIF_MUT_FILE / VERIF_MUT_SRC (optional, used by the mutant demo): take the source text of VERIF_MUT_FILE
@@ -30,9 +31,9 @@ gen() {
   local dir="$1" pkg="$2" file="$3" tag="$4" seam=false
   local src; src=$(src_of "$repo/$dir/$file")
   [ -f "$src" ] || { echo "missing $src" >&2; exit 1; }
-  if grep -q 'sha1\.New()' "$src"; then
+  if grep -q -e 'sha1\.New()' -e 'sha1\.Sum(' "$src"; then
     seam=true
-    sed 's/sha1\.New()/verifSha1New()/g' "$src" > "$w/${tag}_rewritten.go"
+    sed -e 's/sha1\.New()/verifSha1New()/g' -e 's/sha1\.Sum(/verifSha1Sum(/g' "$src" > "$w/${tag}_rewritten.go"
     printf '\nvar _ = sha1.New // verif overlay: keeps the crypto/sha1 import used after the mechanical rewrite\n' >> "$w/${tag}_rewritten.go"
     entries+=("\"$repo/$dir/$file\": \"$w/${tag}_rewritten.go\"")
   elif [ "$src" != "$repo/$dir/$file" ]; then
@@ -59,6 +60,14 @@ func VerifSetSha1(f func() hash.Hash) {
 		f = sha1.New
 	}
 	verifSha1New = f
+}
+
+// verifSha1Sum stands in for the one-shot sha1.Sum: same seam.
+func verifSha1Sum(b []byte) (out [sha1.Size]byte) {
+	h := verifSha1New()
+	h.Write(b)
+	h.Sum(out[:0])
+	return out
 }
 
 func VerifAuthDigest(serverID string, sharedSecret, publicKey []byte) string {
